@@ -1,5 +1,5 @@
 (* C11: the membership test (pure, all entry lists) and the Reload protocol. *)
-From Coq Require Import List NArith Bool Arith Lia.
+From Coq Require Import List NArith Bool Arith Lia Permutation.
 From GS Require Import Errs LTS Composite CompositeMon CompositeBase.
 Import ListNotations.
 
@@ -30,11 +30,11 @@ Proof. unfold names. induction new as [|e new IH]; cbn; [reflexivity|]. now rewr
 
 (* the code's test, for the unrepaired code: "unchanged" iff same length and new names among old *)
 Lemma membership_unfixed P old new :
-  fix_c11 P = false ->
+  fix_ms P = false -> fix_c11 P = false ->
   (membership_changed P old new = false <->
    length old = length new /\ incl (names P new) (names P old)).
 Proof.
-  intros Hf. unfold membership_changed. rewrite Hf.
+  intros Hms Hf. unfold membership_changed. rewrite Hms, Hf.
   destruct (Nat.eqb (length old) (length new)) eqn:El; cbn.
   - apply Nat.eqb_eq in El. rewrite existsb_names.
     destruct (existsb (fun x => negb (mem_N x (names P old))) (names P new)) eqn:Ee.
@@ -48,10 +48,10 @@ Proof. apply map_length. Qed.
 
 (* for duplicate-free entry lists the code's answer is exactly "the two name sets are equal" *)
 Lemma membership_nodup P old new :
-  fix_c11 P = false -> NoDup (names P old) -> NoDup (names P new) ->
+  fix_ms P = false -> fix_c11 P = false -> NoDup (names P old) -> NoDup (names P new) ->
   (membership_changed P old new = false <-> same_set (names P old) (names P new)).
 Proof.
-  intros Hf Ho Hn. rewrite (membership_unfixed P old new Hf). split.
+  intros Hms Hf Ho Hn. rewrite (membership_unfixed P old new Hms Hf). split.
   - intros [Hl Hi] x. split; [|apply Hi].
     revert x. apply NoDup_length_incl; [exact Hn| |exact Hi].
     rewrite !names_length. lia.
@@ -108,13 +108,14 @@ Qed.
 Lemma sort_N_NoDup l : NoDup (sort_N l).
 Proof. apply ssorted_NoDup, sort_N_sorted. Qed.
 
-(* the repaired test: for ALL entry lists, "unchanged" iff same length and same name set *)
+(* the test of /repo 5b52fc2 (before the multiset repair): for ALL entry lists, "unchanged" iff same
+   length and same name SET *)
 Lemma membership_fixed P old new :
-  fix_c11 P = true ->
+  fix_ms P = false -> fix_c11 P = true ->
   (membership_changed P old new = false <->
    length old = length new /\ same_set (names P old) (names P new)).
 Proof.
-  intros Hf. unfold membership_changed. rewrite Hf.
+  intros Hms Hf. unfold membership_changed. rewrite Hms, Hf.
   destruct (Nat.eqb (length old) (length new)) eqn:El; cbn.
   2:{ apply Nat.eqb_neq in El. split; [discriminate|]. intros [H _]. exfalso. apply El. exact H. }
   apply Nat.eqb_eq in El. rewrite existsb_names.
@@ -137,9 +138,91 @@ Proof.
       lia.
 Qed.
 
+(* ---- the current test (hooks/fix-c09-membership-multiset.patch): name MULTISETS ---- *)
+
+Lemma take_out_perm x l l' : take_out x l = Some l' -> Permutation l (x :: l').
+Proof.
+  revert l'; induction l as [|y l IH]; intros l' H; cbn in H; [discriminate|].
+  destruct (N.eqb x y) eqn:E.
+  - apply N.eqb_eq in E. subst. injection H as <-. apply Permutation_refl.
+  - destruct (take_out x l) as [t|]; [|discriminate]. injection H as <-.
+    eapply perm_trans; [apply perm_skip, IH; reflexivity|apply perm_swap].
+Qed.
+
+Lemma take_out_in x l : In x l -> exists l', take_out x l = Some l'.
+Proof.
+  induction l as [|y l IH]; cbn; [intros []|].
+  destruct (N.eqb x y) eqn:E; [eexists; reflexivity|].
+  intros [H|H]; [subst; rewrite N.eqb_refl in E; discriminate|].
+  destruct (IH H) as [l' ->]. eexists; reflexivity.
+Qed.
+
+(* the loop succeeds iff the new names are, with their multiplicities, among the old ones; what is left
+   over is the rest of the old ones *)
+Lemma all_taken_perm new : forall avail,
+  all_taken new avail = true <-> exists rest, Permutation avail (new ++ rest).
+Proof.
+  induction new as [|x new IH]; intros avail; cbn.
+  - split; [intros _; exists avail; apply Permutation_refl|reflexivity].
+  - destruct (take_out x avail) as [av'|] eqn:E.
+    + rewrite IH. pose proof (take_out_perm _ _ _ E) as Hp. split.
+      * intros [rest Hr]. exists rest. eapply perm_trans; [exact Hp|]. now apply perm_skip.
+      * intros [rest Hr]. exists rest. apply (Permutation_cons_inv (a := x)).
+        eapply perm_trans; [apply Permutation_sym; exact Hp|exact Hr].
+    + split; [discriminate|]. intros [rest Hr]. exfalso.
+      assert (Hin : In x avail) by (eapply Permutation_in; [apply Permutation_sym; exact Hr|now left]).
+      destruct (take_out_in _ _ Hin) as [l' El]. congruence.
+Qed.
+
+(* "unchanged" iff the two name lists are permutations of each other, for ALL entry lists *)
+Lemma membership_multiset P old new :
+  fix_ms P = true ->
+  (membership_changed P old new = false <-> Permutation (names P old) (names P new)).
+Proof.
+  intros Hms. unfold membership_changed. rewrite Hms.
+  destruct (Nat.eqb (length old) (length new)) eqn:El; cbn.
+  - apply Nat.eqb_eq in El. rewrite negb_false_iff, all_taken_perm. split.
+    + intros [rest Hr]. assert (rest = []).
+      { apply Permutation_length in Hr. rewrite app_length, !names_length in Hr.
+        destruct rest; [reflexivity|cbn in Hr; lia]. }
+      subst. now rewrite app_nil_r in Hr.
+    + intros Hp. exists []. now rewrite app_nil_r.
+  - apply Nat.eqb_neq in El. split; [discriminate|]. intros Hp. exfalso. apply El.
+    apply Permutation_length in Hp. now rewrite !names_length in Hp.
+Qed.
+
+(* what every repaired variant gives (enough for the set-level invariants) *)
+Lemma membership_false_len_set P old new :
+  fix_ms P = true \/ fix_c11 P = true ->
+  membership_changed P old new = false ->
+  length old = length new /\ same_set (names P old) (names P new).
+Proof.
+  intros Hv Hm. destruct (fix_ms P) eqn:Hms.
+  - apply (membership_multiset P old new Hms) in Hm. split.
+    + apply Permutation_length in Hm. now rewrite !names_length in Hm.
+    + intros x. split; intros Hx; [eapply Permutation_in; eassumption|
+                                    eapply Permutation_in; [apply Permutation_sym|]; eassumption].
+  - destruct Hv as [Hv|Hv]; [discriminate|]. now apply (membership_fixed P old new Hms Hv).
+Qed.
+
+(* the witness against the name-SET test of 5b52fc2: old [a;a;b], new [a;b;b] *)
+Definition ms_pool (ms : bool) : params :=
+  mkParams [mkSpec 0 UntilRunDone OnSignal RWC; mkSpec 1 UntilRunDone OnSignal RWC] true true true true ms.
+Definition ms_old : config := [(0, 0); (0, 0); (1, 0)]%N.
+Definition ms_new : config := [(0, 1); (1, 1); (1, 1)]%N.
+
+Lemma membership_set_refuted :
+  membership_changed (ms_pool false) ms_old ms_new = false /\
+  membership_changed (ms_pool true) ms_old ms_new = true /\
+  ~ Permutation (names (ms_pool false) ms_old) (names (ms_pool false) ms_new).
+Proof.
+  split; [reflexivity|]. split; [reflexivity|]. intros H.
+  apply (Permutation_count_occ N.eq_dec) with (x := 0%N) in H. cbn in H. discriminate H.
+Qed.
+
 (* the witness: old [a;b], new [a;a] *)
 Definition dup_pool : params :=
-  mkParams [mkSpec 0 UntilRunDone OnSignal RWC; mkSpec 1 UntilRunDone OnSignal RWC] false false false false.
+  mkParams [mkSpec 0 UntilRunDone OnSignal RWC; mkSpec 1 UntilRunDone OnSignal RWC] false false false false false.
 Definition dup_old : config := [(0, 0); (1, 0)]%N.
 Definition dup_new : config := [(0, 1); (0, 2)]%N.
 
